@@ -111,6 +111,17 @@ class DocActions(object):
     self._engine.out_actions.undo.append(actions.ReplaceTableData(*old_data))
     self._engine.out_actions.summary.remove_records(table_id, old_data[1])
     self._engine.out_actions.summary.add_records(table_id, row_ids)
+
+    # Unset the rows that go away, as for removed records (lookup indexes would otherwise keep
+    # them), and invalidate them so that anything that depends on them gets recomputed.
+    table = self._engine.tables[table_id]
+    new_row_ids = set(row_ids)
+    gone_row_ids = [r for r in old_data.row_ids if r not in new_row_ids]
+    for column in table.all_columns.values():
+      for row_id in gone_row_ids:
+        column.unset(row_id)
+    self._engine.invalidate_records(table_id, gone_row_ids)
+
     self._engine.load_table(actions.TableData(table_id, row_ids, column_values))
 
   #----------------------------------------
